@@ -708,6 +708,12 @@ def gate_functions(ctx, R):
     return allowed
 
 
+def _only_returns(f):
+    """an accessor: apart from its docstring the function only returns a value (no store, no call statement, no branch with effects)"""
+    body = [st for st in f.node.body if not (isinstance(st, ast.Expr) and isinstance(st.value, ast.Constant))]
+    return bool(body) and all(isinstance(st, ast.Return) for st in body)
+
+
 def registry_readers(ctx, R, allowed=None):
     """Who reads the process-global extension registry (shared with C11: what a loader returns must come from the parser it was given)."""
     prog = ctx.program
@@ -729,7 +735,7 @@ def registry_readers(ctx, R, allowed=None):
                     continue
                 # a public accessor that nothing in the package uses (an inspection aid for callers): it cannot influence a parse, a
                 # loader or the factory
-                if not f.name.startswith("_") and f.cls is not None and not any(
+                if not f.name.startswith("_") and f.cls is not None and _only_returns(f) and not any(
                         (isinstance(x, ast.Attribute) and x.attr == f.name and not (isinstance(x.value, ast.Name) and (
                             prog.cls(x.value.id) is not None or x.value.id == "cls")) and not (
                             isinstance(x.value, ast.Attribute) and prog.cls(x.value.attr) is not None))
